@@ -765,6 +765,10 @@ def check_c07(sc, base_out, out_bytes, spec, out, base_info):
                                 kinds.add("cuwp")
                             if v["k"] == "sw" and v.get("name"):
                                 kinds.add("sw")
+        elif ed["op"] == "setuprp" and any(c["idx"] not in va["cuwps"] for c in ed["cuwps"]):
+            kinds.add("cuwp")
+        elif ed["op"] == "setmrgn" and any(l["idx"] not in va["locs"] for l in ed["locs"]):
+            kinds.add("loc")
 
     def fail(what, **kw):
         out.violations.append(dict(base_info, oracle="edits leave everything that already exists untouched", key=None, diff=what, **kw))
@@ -910,6 +914,16 @@ def _special_histories(author, rng, have):
         e = author.entry("a", 11)
         e["args"] = [(a, (cp if v["k"] == "cuwp" else v)) for a, v in e["args"]]
         out.append(("a copy of a stored unit-property set carrying a free slot number", [{"op": "addtrigs", "trigs": [{"conds": [], "acts": [e], "players": [5]}]}], "single", True))
+    # the unit-property table itself gains copies of stored sets at free slot numbers (no trigger touched):
+    # every existing reference stays on the slot it named
+    if pool2 and len(free2) >= 2:
+        allstored = [Obj(**{k2: (list(v2) if isinstance(v2, list) else v2) for k2, v2 in c.items()}) for c in pool2]
+        copies = []
+        for c, k in zip(allstored[:3], reversed(free2)):
+            cc = Obj(**{k2: (list(v2) if isinstance(v2, list) else v2) for k2, v2 in c.items() if k2 != "uid"})
+            cc["idx"] = k
+            copies.append(cc)
+        out.append(("copies of stored unit-property sets put into the table at free slot numbers", [{"op": "setuprp", "cuwps": allstored + copies}], "single", False))
     # the same trigger added three times (hyper triggers): all three must be in the file
     t = author.trigger(nc=1, na=3, raw_p=0)
     out.append(("three identical triggers in one call", [{"op": "addtrigs", "trigs": [t, t, t]}], "single", False))
